@@ -187,6 +187,28 @@ pub fn cube(run: &Run) -> Acc {
     a1.merge(a2)
 }
 
+/// nesting shapes whose cost must stay polynomial in the depth: evaluated at small depths (8..32) with a short
+/// horizon - work that doubles per level passes depth 16 in milliseconds and never finishes depth 24
+pub const EXP_CONSTRUCTS: [&str; 9] = [
+    "exp:match-over-filter",
+    "exp:search-over-filter-negated",
+    "exp:count-filter-gte",
+    "exp:count-filter-eq",
+    "exp:value-filter-lte",
+    "exp:length-value-filter-ne",
+    "exp:nested-filter-tests",
+    "exp:filter-with-or-and",
+    "exp:abs-query-tests",
+];
+
+fn rec_nest(d: usize, base: &str, wrap: &dyn Fn(&str) -> String) -> String {
+    let mut s = base.to_string();
+    for _ in 0..d {
+        s = wrap(&s);
+    }
+    s
+}
+
 pub const CONSTRUCTS: [&str; 18] = [
     "wide-array-wildcard",
     "wide-array-filter",
@@ -255,6 +277,15 @@ pub fn rung(construct: &str, d: usize) -> (String, Value) {
             }
             v
         }),
+        "exp:match-over-filter" => (format!("$[?{}]", rec_nest(d, "@.a", &|x| format!("match(value(@[?{}]),'a')", x))), small),
+        "exp:search-over-filter-negated" => (format!("$[?{}]", rec_nest(d, "@.a", &|x| format!("!search(value(@.*[?{}]),'a')", x))), nested_array(2 * d + 4)),
+        "exp:count-filter-gte" => (format!("$[?{}]", rec_nest(d, "count(@.*)>=1", &|x| format!("count(@.*[?{}])>=1", x))), nested_array(2 * d + 4)),
+        "exp:count-filter-eq" => (format!("$[?{}]", rec_nest(d, "count(@.*)==1", &|x| format!("count(@.*[?{}])==1", x))), nested_array(2 * d + 4)),
+        "exp:value-filter-lte" => (format!("$[?{}]", rec_nest(d, "@[0]<=1", &|x| format!("value(@.*[?{}])<=1||1<=value(@.*[?{}])", x, "@"))), nested_array(2 * d + 4)),
+        "exp:length-value-filter-ne" => (format!("$[?{}]", rec_nest(d, "length(@)!=0", &|x| format!("length(value(@[?{}]))!=0", x))), nested_array(2 * d + 4)),
+        "exp:nested-filter-tests" => (format!("$[?{}]", rec_nest(d, "@", &|x| format!("@[?{}]&&!@.zz", x))), nested_array(2 * d + 4)),
+        "exp:filter-with-or-and" => (format!("$[?{}]", rec_nest(d, "@", &|x| format!("(@[?{}]||@.zz)&&(@.zz||@)", x))), nested_array(2 * d + 4)),
+        "exp:abs-query-tests" => (format!("$[?{}]", rec_nest(d, "$[0]", &|x| format!("$[?{}]", x))), nested_array(6)),
         _ => panic!("unknown construct {}", construct),
     }
 }
@@ -374,8 +405,19 @@ pub fn ladder(run: &Run) -> Acc {
             jobs.push((c, d));
         }
     }
+    for c in EXP_CONSTRUCTS {
+        for d in [8usize, 16, 24, 32] {
+            // beyond the first rung a known finding fails at, nothing new can be learnt (and each costs the horizon)
+            let from = run.findings.allowed("C08", &format!("ladder:{}", c)).and_then(|id| run.findings.param(id, "from_depth")).unwrap_or(u64::MAX);
+            if d as u64 > from {
+                continue;
+            }
+            jobs.push((c, d));
+        }
+    }
     let pool = rayon::ThreadPoolBuilder::new().num_threads(4).build().unwrap();
-    let results: Vec<((&str, usize), RungResult)> = pool.install(|| jobs.par_iter().map(|(c, d)| ((*c, *d), run_rung(c, *d, Duration::from_secs(120)))).collect());
+    let horizon = |c: &str| if c.starts_with("exp:") { Duration::from_secs(15) } else { Duration::from_secs(120) };
+    let results: Vec<((&str, usize), RungResult)> = pool.install(|| jobs.par_iter().map(|(c, d)| ((*c, *d), run_rung(c, *d, horizon(c)))).collect());
     let mut acc = Acc::new();
     for ((c, d), r) in results {
         acc.evals += 1;
@@ -411,7 +453,7 @@ pub fn replay_ladder(case: &Value, run: &Run) -> Acc {
     let mut acc = Acc::new();
     let c = case["construct"].as_str().unwrap_or("parens").to_string();
     let d = case["depth"].as_u64().unwrap_or(8) as usize;
-    let r = run_rung(&c, d, Duration::from_secs(60));
+    let r = run_rung(&c, d, if c.starts_with("exp:") { Duration::from_secs(15) } else { Duration::from_secs(60) });
     println!("construct {} depth {} : {:?}", c, d, r);
     let _ = run;
     if !matches!(r, RungResult::Ok(_)) {
